@@ -63,8 +63,10 @@ class ProgGen:
             o["cache_scope"] = r.choice(["NONE", "CSE"])
         if self.allow_noprov and r.random() < 0.05:
             o["prov"] = False
-        if ctx and r.random() < 0.25:
-            o["context"] = {"k": r.choice([1, 2])}
+        if ctx and r.random() < 0.3:
+            # update_context overrides: k may also be defined by the config-level context, j never is
+            o["context"] = r.choice([{"k": r.choice([1, 2])}, {"k": r.choice([1, 2])}, {"j": r.choice([3, 4])},
+                                     {"k": r.choice([1, 2]), "j": 3}])
         return o or None
 
     def leaf(self, ctx, fail):
@@ -151,7 +153,9 @@ def _S(name, child, new_execution=False, **kw):
 
 _LEAVES = ("m", "list", 0, (("l1", "leaf", 1, (), None), ("l2", "leaf", 2, (), None)), None)
 _BOOM = ("f1", "raise", "boom1", (), None)
+_CTXLEAF = ("x0", "ctx", 0, (), None)
 # always run (thread executor): situations the random programs reach only sometimes
+# (name, program, cache flags[, config-level context])
 SCENARIOS = [
     # the same subrun under two different parents, one after the other: CSE hit on the _subrun_root_task job
     # (the two subrun nodes differ in name only, so the calling jobs differ and the subrun expressions are equal)
@@ -161,25 +165,40 @@ SCENARIOS = [
     ("full-twice-new", _S("S", _LEAVES, True, check_valid="full", cache_scope="BACKEND"), [True, True, False]),
     # errors, replayed: the dict with 'error' (extend) and the failed job (new execution)
     ("error-extend-twice", ("c", "catch", 0, (_S("S", _BOOM),), None), [True, True]),
+    # config-level context {"k": 7}: a caller / ancestor override of the config-defined key k (and of the other key j)
+    # must reach a sub-workflow that reads them, in a new execution and in the current one
+    ("ctx-override-new", ("r", "list", 0, (_S("Sn", _CTXLEAF, True),), {"context": {"k": 2, "j": 3}}), [True, True], {"k": 7}),
+    ("ctx-override-extend", ("r", "list", 0, (_S("Se", _CTXLEAF, False),), {"context": {"k": 2, "j": 3}}), [True], {"k": 7}),
+    ("ctx-override-on-subrun-node", ("Sn", "subrun", (("new_execution", True), ("executor", "default")), (_CTXLEAF,), {"context": {"k": 1}}), [True], {"k": 7}),
+    ("ctx-config-only", ("r", "list", 0, (_S("Sn", _CTXLEAF, True), _S("Se", _CTXLEAF, False)), {"context": {"j": 4}}), [True], {"k": 7}),
     ("error-new-twins", ("q", "seq", 0, (("c1", "catch", 0, (_S("Sa", _BOOM, True),), None), ("c2", "catch", 0, (_S("Sb", _BOOM, True),), None)), None), [True, True]),
 ]
 
 
 # ------------------------------------------------------------------------------------------------ running
-def make_scheduler(db, busy_timeout=2.0):
+def make_scheduler(db, cfgctx=None, busy_timeout=2.0):
     from redun import Scheduler
     from redun.config import Config
     cfg = {"backend": {"db_uri": f"sqlite:///{db}?timeout={busy_timeout}", "db_retries": "3", "db_retries_backoff": "0.05"},
            "executors.default": {"type": "local", "mode": "thread"},
            "executors.process": {"type": "local", "mode": "process"}}
+    if cfgctx:
+        cfg["scheduler"] = {"context": json.dumps(cfgctx)}       # [scheduler] context = {...}: forwarded to sub-schedulers too
     s = Scheduler(config=Config(cfg))
     s.load()
     s.logger.disabled = True
     return s
 
 
-def run_expr(db, expr_builder, cache=True, context=None):
-    s = make_scheduler(db)
+def base_ctx(cfgctx, runctx):
+    """context of the execution: the config-level context, overridden by the context given to run()"""
+    out = dict(cfgctx or {})
+    out.update(runctx or {})
+    return out or None
+
+
+def run_expr(db, expr_builder, cache=True, context=None, cfgctx=None):
+    s = make_scheduler(db, cfgctx)
     try:
         return {"result": s.run(expr_builder(), cache=cache, context=context or {})}, s
     except Exception as e:  # noqa
@@ -246,7 +265,7 @@ def child_main():
     spec = eval(job["spec"])
     outs = []
     for cache in job["caches"]:
-        out, s = run_expr(job["db"], lambda: vm_c38.call38(spec), cache=cache, context=job.get("context"))
+        out, s = run_expr(job["db"], lambda: vm_c38.call38(spec), cache=cache, context=job.get("context"), cfgctx=job.get("cfgctx"))
         if "result" in out:
             out["result"] = norm(out["result"])
         outs.append(out)
@@ -437,7 +456,7 @@ class Check(PropertyCheck):
     module = "Props.C38"
     theorems = ["C38_subrun_no_single_reduction", "C38_no_single_when_excluded", "C38_ultimate_only_when_shallow_backend",
                 "C38_check_cache_closed_form", "C38_get_cache_total", "C38_subrun_eq_direct", "C38_replayed_dict_eq_direct",
-                "C38_then_never_silent", "C38_extend_jobs_same_execution", "C38_extend_jobs_under_caller",
+                "C38_then_never_silent", "C38_forwarded_context_is_callers", "C38_extend_jobs_same_execution", "C38_extend_jobs_under_caller",
                 "C38_extend_root_is_child_of_caller", "C38_new_execution_jobs_detached", "C38_nonvacuous"]
     allowed_axioms = []
     assumptions = [
@@ -473,13 +492,13 @@ class Check(PropertyCheck):
     def requires(self):
         """modules for the correspondence cases: the regenerated configuration if the translator produced one"""
         if getattr(self, "tr_info", None) is not None and (GEN / "C38Gen.vo").exists():
-            return ["Model.Subrun", "Gen.C38Gen"], ("gen_check_cache", "gen_getcache", "gen_subrun_opts", "gen_handback", "gen_wiring")
-        return ["Model.Subrun"], ("shipped_check_cache", "shipped_getcache", "shipped_subrun_opts", "shipped_handback", "shipped_wiring")
+            return ["Model.Subrun", "Gen.C38Gen"], ("gen_check_cache", "gen_getcache", "gen_subrun_opts", "gen_handback", "gen_wiring", "gen_ctx_order")
+        return ["Model.Subrun"], ("shipped_check_cache", "shipped_getcache", "shipped_subrun_opts", "shipped_handback", "shipped_wiring", "shipped_ctx_order")
 
     # ------------------------------------------------------------------ correspond
     def correspond(self):
         self.reqs, names = self.requires()
-        self.N = dict(zip(("cc", "gc", "so", "hb", "w"), names))
+        self.N = dict(zip(("cc", "gc", "so", "hb", "w", "co"), names))
         self.deferred = []
         self.corr_check_cache()
         self.corr_get_cache()
@@ -745,10 +764,37 @@ class Check(PropertyCheck):
                         terms.append(f"observed_eqb (subrun_observed {self.N['hb']} {'true' if ne else 'false'} {model_o}) {got}")
                         descr.append({"new_execution": ne, "outcome": okind, "second run on the same backend": replay, "observed": out})
                         self.count(("hb", ne, okind, replay))
+            # the context the sub-workflow reads: config-level context, run() context, a caller override
+            X = ("x0", "ctx", 0, (), None)
+            co = self.N["co"]
+
+            def cq_ctx(d):
+                return "[" + "; ".join(f"({ {'k': 0, 'j': 1}[a]}%nat, {b}%Z)" for a, b in sorted(d.items())) + "]"
+            for cfgc, runc, ov in (({"k": 7}, {}, {"k": 2, "j": 3}), ({"k": 7}, {"k": 5}, {"j": 3}), ({"k": 7}, {"j": 4}, {}),
+                                   ({}, {"k": 5}, {"k": 1})):
+                for mode in ("direct", "new", "extend"):
+                    k += 1
+                    inner = X if mode == "direct" else ("S", "subrun", (("new_execution", mode == "new"), ("executor", "default")), (X,), None)
+                    spec = ("r", "list", 0, (inner,), {"context": ov} if ov else None)
+                    out, _ = run_expr(tmp / f"h{k}.db", lambda: vm_c38.call38(spec), context=runc or None, cfgctx=cfgc or None)
+                    try:
+                        _, _, gk, gj = out["result"][1][0]
+                    except Exception:  # noqa
+                        terms.append("false")
+                        descr.append({"config context": cfgc, "run context": runc, "override": ov, "mode": mode, "observed": out})
+                        continue
+                    base = f"(job_context (run_context {co} (ctx_get {cq_ctx(cfgc)}) (ctx_get {cq_ctx(runc)})) [{cq_ctx(ov)}])"
+                    seen = {"direct": base, "new": f"(sub_new_context {co} (ctx_get {cq_ctx(cfgc)}) {base})",
+                            "extend": f"(sub_extend_context {base})"}[mode]
+                    for key, got in ((0, gk), (1, gj)):
+                        terms.append(f"opt_eqb Z.eqb ({seen} {key}%nat) {'None' if got == 'none' else '(Some ' + str(got) + '%Z)'}")
+                        descr.append({"config context": cfgc, "run context": runc, "override": ov, "mode": mode,
+                                      "key": "kj"[key], "observed": got})
+                    self.count(("ctx", repr(cfgc), repr(runc), repr(ov), mode))
         finally:
             os.chdir("/")
             shutil.rmtree(tmp, ignore_errors=True)
-        self.defer(f"hand-back model == real subrun on {len(terms)} scripted outcomes (value / error x new_execution x fresh / replayed)", terms, descr, True)
+        self.defer(f"hand-back model == real subrun on {len(terms)} scripted cases (value / error x new_execution x fresh / replayed; the context keys a directly evaluated / subrun'd leaf reads)", terms, descr, True)
 
     # (3) + oracle data: generated sub-workflows on real schedulers
     def witness_lock(self, tmp):
@@ -793,19 +839,24 @@ class Check(PropertyCheck):
                 if time.time() - t_start > budget and done_thread >= min_thread:
                     self.stat("generator", "programs not run (time budget)", len(plan) - i)
                     break
-                if isinstance(proc, tuple):          # a fixed scenario: (name, spec, cache flags)
-                    _, spec, caches = proc
+                if isinstance(proc, tuple):          # a fixed scenario
+                    _, spec, caches = proc[:3]
+                    cfgctx = proc[3] if len(proc) > 3 else None
                     proc, ctx = False, None
                     self.stat("programs", "fixed scenario")
                 else:
                     g = ProgGen(self.rng, allow_noprov=allow_noprov and not proc, execs=("default", "process") if proc else ("default",))
                     depth = self.rng.choice([1, 1, 2, 2, 3]) if not proc else 1
-                    spec = g.program(depth, ctx=(i % 3 == 0), fail=(i % 4 != 1), psub=0.3)
+                    reads_ctx = (i % 3 == 0)
+                    spec = g.program(depth, ctx=reads_ctx, fail=(i % 4 != 1), psub=0.3 if not reads_ctx else 0.45)
                     ctx = {"k": 2} if i % 5 == 0 else None
+                    # a config-level context for most context-reading programs (and a few others)
+                    cfgctx = {"k": 7} if (reads_ctx and i % 2 == 0) or i % 7 == 3 else None
                     caches = [True] + ([self.rng.random() < 0.5, True] if i % 2 == 0 else [])
-                exp = expected(spec, ctx)
-                rec = {"spec": spec, "context": ctx, "caches": caches, "proc": proc, "exp": exp, "outs": [], "rows_bad": [],
-                       "direct": None}
+                self.stat("config-level context", "defines k" if cfgctx else "none")
+                exp = expected(spec, base_ctx(cfgctx, ctx))
+                rec = {"spec": spec, "context": ctx, "cfgctx": cfgctx, "caches": caches, "proc": proc, "exp": exp, "outs": [],
+                       "rows_bad": [], "direct": None}
                 for attempt in range(3):
                     db = tmp / f"p{i}_{attempt}.db"
                     rec["outs"] = []
@@ -813,7 +864,7 @@ class Check(PropertyCheck):
                     P = None
                     if proc:
                         try:
-                            r = run_in_child({"spec": repr(spec), "caches": caches, "context": ctx, "db": str(db), "cwd": str(tmp)})
+                            r = run_in_child({"spec": repr(spec), "caches": caches, "context": ctx, "cfgctx": cfgctx, "db": str(db), "cwd": str(tmp)})
                         except subprocess.TimeoutExpired:
                             r = {"child_failed": "timeout"}
                         if "outs" in r:
@@ -823,7 +874,7 @@ class Check(PropertyCheck):
                     else:
                         with Probe() as P:
                             for cache in caches:
-                                out, s = run_expr(db, lambda: vm_c38.call38(spec), cache=cache, context=ctx)
+                                out, s = run_expr(db, lambda: vm_c38.call38(spec), cache=cache, context=ctx, cfgctx=cfgctx)
                                 rec["outs"].append(out)
                                 if is_infra(out):
                                     break
@@ -844,7 +895,7 @@ class Check(PropertyCheck):
                 # direct evaluation of the same program without subrun, fresh backend
                 if i % 2 == 0 and not proc:
                     er = vm_c38.erase(spec)
-                    rec["direct"], _ = run_expr(tmp / f"d{i}.db", lambda: vm_c38.calld(er), context=ctx)
+                    rec["direct"], _ = run_expr(tmp / f"d{i}.db", lambda: vm_c38.calld(er), context=ctx, cfgctx=cfgctx)
                 self.runs.append(rec)
                 done_thread += 0 if proc else 1
                 nodes = subrun_nodes(spec)
@@ -859,7 +910,7 @@ class Check(PropertyCheck):
                     self.stat("subrun cache_scope", p.get("cache_scope", "absent"))
                     self.stat("subrun check_valid", p.get("check_valid", "absent"))
                 self.stat("subrun nodes per program", min(len(nodes), 4))
-                self.sample({"program": repr(spec)[:600], "context": ctx, "cache flags": caches,
+                self.sample({"program": repr(spec)[:600], "context": ctx, "config-level context": cfgctx, "cache flags": caches,
                              "outcomes": [repr(o)[:120] for o in rec["outs"]]}, 6)
                 for p in tmp.glob("*.db"):
                     p.unlink()
@@ -950,7 +1001,8 @@ class Check(PropertyCheck):
                                          {"kind": "witness", "key": key, "spec": repr(spec)}))
         for rec in getattr(self, "runs", []):
             spec = rec["spec"]
-            rp = {"kind": "program", "spec": repr(spec), "caches": rec["caches"], "context": rec["context"], "proc": rec["proc"]}
+            rp = {"kind": "program", "spec": repr(spec), "caches": rec["caches"], "context": rec["context"],
+                  "config_context": rec.get("cfgctx"), "proc": rec["proc"]}
             if rec.get("child_failed") == "timeout":
                 # a process-executor program that did not finish in time: inconclusive, never a verdict
                 self.stat("oracle", "process-executor programs without an outcome in time (inconclusive)")
@@ -1026,7 +1078,8 @@ class Check(PropertyCheck):
             spec = eval(r["spec"])
             caches = r.get("caches") or [True]
             ctx = r.get("context")
-            exp = expected(spec, ctx)
+            cfgctx = r.get("config_context")
+            exp = expected(spec, base_ctx(cfgctx, ctx))
             tmp = scratch_dir("rv_c38r_")
             try:
                 os.chdir(tmp)
@@ -1036,12 +1089,12 @@ class Check(PropertyCheck):
                         outs = []
                         for cache in caches:
                             if r.get("proc"):
-                                res = run_in_child({"spec": repr(spec), "caches": [cache], "context": ctx, "db": str(db), "cwd": str(tmp)})
+                                res = run_in_child({"spec": repr(spec), "caches": [cache], "context": ctx, "cfgctx": cfgctx, "db": str(db), "cwd": str(tmp)})
                                 out = res["outs"][0] if "outs" in res else {"error": ("NoOutcome", str(res)[:200])}
                                 if "error" in out:
                                     out["error"] = tuple(out["error"])
                             else:
-                                out, _ = run_expr(db, lambda: vm_c38.call38(spec), cache=cache, context=ctx)
+                                out, _ = run_expr(db, lambda: vm_c38.call38(spec), cache=cache, context=ctx, cfgctx=cfgctx)
                             outs.append(out)
                     for k, out in enumerate(outs):
                         if not agrees(out, exp):
